@@ -6,10 +6,10 @@ sample values must equal the integers of the spec.  The same behaviour is run on
 (steps from 1e-10 s to 1 s, negative / huge offsets): the result must not depend on the grid position.
 """
 import numpy as np
-from pyrex.signals import Signal
+from pyrex.signals import Signal, FunctionSignal
 from vlib.core import Divergence
 
-GRIDS = [(1.0, 0.0), (0.5, -7.0), (1e-10, 3e-6), (1.25e-9, -4e-8), (1.0, 1e6), (2.0, 1.0)]
+GRIDS = [(1.0, 0.0), (0.5, -7.0), (1e-10, 3e-6), (1.25e-9, -4e-8), (1.0, 1e6), (2.0, 1.0), (1e-9 / 3, 0.0), (1.2345678e-10, 5e-9)]
 
 
 def response(h, dt, variant):
@@ -59,6 +59,20 @@ class FilterDriver:
         for dt, t0 in GRIDS:
             t = t0 + np.arange(n) * dt
             self.sets.append((dt, [Signal(t, [float(x) for x in st[k]]) for k in ('a', 'b', 'c')]))
+        self.comp = {0: 1.0}
+        self.orig = {k: [float(x) for x in st[k]] for k in 'abc'}
+        # function-backed replicas on the first two grids: fc is a genuine sum fa + K*fb whose right operand is kept
+        self.fsets = []
+        for dt, t0 in GRIDS[:2]:
+            t = t0 + np.arange(n) * dt
+
+            def table(vals, tt=t):
+                vals = np.array([float(x) for x in vals])
+                return lambda x: np.interp(x, tt, vals, left=0.0, right=0.0)
+            fa, fb = FunctionSignal(t, table(st['a'])), FunctionSignal(t, table(st['b']))
+            fbk = fb * 2.0
+            fc = fa + fbk
+            self.fsets.append((dt, {'a': fa, 'b': fb, 'bk': fbk, 'c': fc}))
 
     @staticmethod
     def dropped(h, x):
@@ -84,6 +98,29 @@ class FilterDriver:
                                      list(want), list(got))
                 if not np.array_equal(s.times, times_before):
                     raise Divergence('times after filtering', list(times_before), list(s.times))
+        # function-backed signals pass ONCE through the product of all their filters (C06): the expectation is the
+        # original samples convolved with the composite kernel, as long as that stays within the zero padding
+        comp = {}
+        for d0, g0 in self.comp.items():
+            for d1, g1 in h:
+                comp[d0 + int(d1)] = comp.get(d0 + int(d1), 0.0) + g0 * float(g1)
+        self.comp = comp
+        n0 = st['N']
+        if any(abs(d_) > n0 for d_ in comp):
+            self.fsets = []          # beyond the padded length the function-backed replicas are not followed
+        for dt, fs in self.fsets:
+            # the sum first, then its operands: filters must not leak between them
+            for name in ('c', 'a', 'b', 'bk'):
+                fs[name].filter_frequencies(response(h, dt, variant), force_real=fr)
+                self.applied += 1
+            for name in ('c', 'a', 'b', 'bk'):
+                x0 = np.array(self.orig['b' if name == 'bk' else name]) * (2.0 if name == 'bk' else 1.0)
+                want = self.dropped(list(comp.items()), list(x0))
+                got = np.asarray(fs[name].values, dtype=float)
+                scale = max(1.0, np.max(np.abs(want))) * len(want) * 8 + 1
+                if len(got) != len(want) or not np.allclose(got, want, rtol=0, atol=1e-9 * scale):
+                    raise Divergence('function-backed signal %s after %s response %s force_real=%s (dt=%g), composite kernel %s' % (
+                        name, variant, list(h), fr, dt, sorted(comp.items())), list(want), list(got))
         self.cur = {k: [float(x) for x in st[k]] for k in 'abc'}
         if last['wraps']:
             # D10: the model (and the code) wrap taps beyond the signal length round to the start
